@@ -868,6 +868,39 @@ func runGenCase(gc *genCase, keepDir *string) *genOutcome {
 				}
 			}
 		}
+		// outputs left by an earlier run must not influence a later one:
+		// regenerate in the other mode OVER the existing outputs and compare
+		// with what a clean tree yields in that mode
+		{
+			om := *gc
+			om.mode = "source-map"
+			if gc.mode != "base" {
+				om.mode = "base"
+			}
+			clean := func() {
+				for _, f := range gc.pkg.Files {
+					os.Remove(filepath.Join(pdir, genName(f.Name)))
+				}
+			}
+			clean()
+			if _, c, _ := run(mod, 120*time.Second, *flagCff, gc.cffArgs()...); c == 0 {
+				if _, c2, _ := run(mod, 120*time.Second, *flagCff, om.cffArgs()...); c2 == 0 {
+					over := readDirGo(pdir)
+					clean()
+					if _, c3, _ := run(mod, 120*time.Second, *flagCff, om.cffArgs()...); c3 == 0 {
+						fresh := readDirGo(pdir)
+						for _, f := range gc.pkg.Files {
+							n := genName(f.Name)
+							if over[n] != fresh[n] {
+								add("C17", "%s: regenerating in %s mode over outputs left by a %s-mode run gives other text than a clean tree does:\n%s", n, om.mode, gc.mode, firstDiff(fresh[n], over[n]))
+							}
+						}
+					}
+				}
+			}
+			clean()
+			run(mod, 120*time.Second, *flagCff, gc.cffArgs()...)
+		}
 		// a relative OUT
 		if gc.mode == "base" && len(gc.pkg.Files) > 0 {
 			f := gc.pkg.Files[0]
